@@ -334,8 +334,8 @@ DoRefresh(s, o) ==
        IF f.ret # "ok" THEN f
        ELSE IF s.needrb THEN R(f.st, "PendingRollbackError")
        ELSE LET s1 == Sql(AutoBegin(f.st), 1) IN
-            IF ~InMapS(s1, o) \/ s1.work[s1.key[o]] = Absent THEN R(s1, "InvalidRequestError")
-            ELSE R(LoadObj(s1, o), "ok")
+            IF s1.work[s1.key[o]] = Absent \/ (~InMapS(s1, o) /\ "gsw" \notin Dev) THEN R(s1, "InvalidRequestError")
+            ELSE R(LoadObj(s1, o), "ok")      \* deviation gsw: the autoflush switched the row to another object; o (deleted) is refreshed from it
 \* Session._remove_newly_deleted([o]) for an identity-map entry whose row turned out to be gone
 RemoveNewlyDeleted(s, o) ==
   IF InMapS(s, o) THEN Ev([s EXCEPT !.imap[s.key[o]] = NoObj, !.sdel = @ \ {o}, !.life[o] = "deleted", !.wasdel[o] = TRUE,
